@@ -111,7 +111,9 @@ def run(ck):
         plain = [n for n in fn.calls() if name_is(n.get("callee"), ("QtLogger::Pipeline::append",)) or (name_is(n.get("callee"), "append") and skip_copies(n.get("obj")).get("k") == "this")]
         isnull = lambda n: is_call(n, "isNull") and is_ref_to(skip_copies(n).get("obj"), pdecl)
         if len(prim) + len(plain) != 1:
-            ck.ob("C17-O2", sitestr(fn), None, "%s uses %d primitives and %d plain appends" % (m, len(prim), len(plain)))
+            verdict = sort_based_insertion(ck, fn, m, en)
+            if verdict is None:
+                ck.ob("C17-O2", sitestr(fn), None, "%s uses %d primitives and %d plain appends" % (m, len(prim), len(plain)))
             continue
         if plain:
             ok = not gt
@@ -166,7 +168,10 @@ def run(ck):
     tdecl = cl.params[0]["decl"]
     eqs = [n for n in cl.find(lambda n: n.get("k") == "binop" and n.get("op") in ("==", "!=") and (is_ref_to(n.get("lhs"), tdecl) or is_ref_to(n.get("rhs"), tdecl)))]
     rem = [n for n in cl.calls() if n.get("ck") == "member" and name_is(n.get("callee"), ("remove", "erase", "removeAt"))]
-    if len(eqs) != 1 or len(rem) != 1:
+    algo = [n for n in cl.calls() if strip_tmpl(n.get("callee") or "") in ("std::partition", "std::stable_partition", "std::remove_if", "std::remove", "std::erase_if")]
+    if algo:
+        algorithm_clear(ck, cl, algo[0], tdecl)
+    elif len(eqs) != 1 or len(rem) != 1:
         ck.ob("C17-O3", sitestr(cl), None, "clear(type): %d comparisons with the argument, %d removals" % (len(eqs), len(rem)))
     else:
         e = eqs[0]
@@ -282,3 +287,73 @@ def primitive(ck, fn, left):
     ck.ob("C17-O4", sitestr(fn), ok if (ok or definite) else None, "%s: %s" % (nm, what) if ok else
           "%s deviates from its contract: first search ok=%s, second search ok=%s, insert position ok=%s, inserted value ok=%s, exactly once=%s" % (nm, bool(c1), bool(c2), bool(c3), bool(c4), once), key="%s|contract" % nm)
     return ok
+
+
+def _lambda_type_compare(F, lam_node, other_is):
+    """for a predicate/comparator lambda: list of (op, lhs-is-type()-call, rhs) comparisons of element type() values"""
+    lam = skip_copies(lam_node)
+    if not (isinstance(lam, dict) and lam.get("k") == "lambda"):
+        return None, None
+    lf = F.fns.get(lam.get("fn"))
+    if lf is None:
+        return None, None
+    cmps = [n for n in lf.find(lambda n: n.get("k") == "binop" and n.get("op") in ("==", "!=", "<", ">", "<=", ">="))]
+    return lf, cmps
+
+
+def algorithm_clear(ck, cl, call, tdecl):
+    """clear(type) written with a standard algorithm + erase: the algorithm must keep the relative order of the survivors"""
+    F = ck.facts
+    name = strip_tmpl(call.get("callee") or "").split("::")[-1]
+    lam = [a for a in call.get("args", []) if skip_copies(a).get("k") == "lambda"]
+    lf, cmps = _lambda_type_compare(F, lam[0], None) if lam else (None, None)
+    if name == "partition":
+        ck.ob("C17-O3", sitestr(cl, call), False, "clear(type) uses std::partition, which does not keep the relative order of the elements it keeps: handlers that survive a clear (and every setFormatter) are reordered, "
+              "e.g. a sink or nested pipeline ends up in front of the formatter", key="clear|unstable-algorithm")
+        return
+    if lf is None or not cmps or len(cmps) != 1:
+        ck.ob("C17-O3", sitestr(cl, call), None, "clear(type): predicate of std::%s not recognised" % name)
+        return
+    ck.touch(lf)
+    c = cmps[0]
+    sides = [skip_copies(c.get("lhs")), skip_copies(c.get("rhs"))]
+    has_type = any(is_call(x, "QtLogger::Handler::type") for x in sides)
+    has_arg = any(x.get("k") == "ref" and x.get("decl") == tdecl for x in sides)
+    # remove_if / erase_if remove the elements for which the predicate holds; stable_partition keeps them in front
+    want = "==" if name in ("remove_if", "erase_if") else "!="
+    ok = has_type and has_arg and c.get("op") == want
+    ck.ob("C17-O3", sitestr(cl, call), ok, "clear(type) removes exactly the elements whose type() equals the argument with the order-preserving std::%s" % name if ok else
+          "clear(type): std::%s with predicate %s does not remove exactly the elements of the given type" % (name, describe(c)), key="clear|compares")
+    er = [n for n in cl.calls() if n.get("ck") == "member" and name_is(n.get("callee"), ("erase",))]
+    if name != "erase_if":
+        oke = len(er) == 1 and any(x.get("id") == call["id"] for x in walk(er[0])) and any(sentinel(a)[0] == "end" for a in er[0].get("args", []))
+        ck.ob("C17-O3", sitestr(cl, er[0]) if er else sitestr(cl), oke, "the tail returned by the algorithm is erased up to end()" if oke else "the result of std::%s is not erased up to end()" % name, key="clear|erase-tail")
+
+
+def sort_based_insertion(ck, fn, m, en):
+    """typed insertion written as append + sort by class (possibly in a helper): must be a *stable* sort on the class rank"""
+    F = ck.facts
+    cands = [fn] + [F.fns[n["fn"]] for n in fn.calls() if n.get("fn") in F.fns and strip_tmpl(F.fns[n["fn"]].name).startswith(SP + "::")]
+    for f in cands:
+        sorts = [n for n in f.calls() if strip_tmpl(n.get("callee") or "") in ("std::sort", "std::stable_sort", "std::partial_sort", "std::nth_element")]
+        if not sorts:
+            continue
+        ck.touch(f)
+        st = sorts[0]
+        nm = strip_tmpl(st["callee"]).split("::")[-1]
+        where = "%s (via %s)" % (m, strip_tmpl(f.name).split("::")[-1]) if f.id != fn.id else m
+        if nm != "stable_sort":
+            ck.ob("C17-O2", sitestr(f, st), False, "%s orders the list with std::%s, which is not stable: handlers of one class can change their relative order (libstdc++ keeps it only for lists of up to 16 elements)" % (where, nm),
+                  key="%s|unstable-sort" % m)
+            return False
+        lam = [a for a in st.get("args", []) if skip_copies(a).get("k") == "lambda"]
+        lf, cmps = _lambda_type_compare(F, lam[0], None) if lam else (None, None)
+        vals = [e["value"] for e in en["enumerators"]]
+        rank_order = [e["name"] for e in sorted(en["enumerators"], key=lambda e: e["value"])]
+        okr = [x for x in rank_order if x in RANK] == RANK
+        okc = lf is not None and cmps and len(cmps) == 1 and cmps[0].get("op") == "<" and all(is_call(x, "QtLogger::Handler::type") for x in (cmps[0].get("lhs"), cmps[0].get("rhs")))
+        ok = bool(okr and okc)
+        ck.ob("C17-O2", sitestr(f, st), ok if ok else None, "%s: append + std::stable_sort by type(), and the HandlerType enumerators are declared in class order %s" % (where, RANK) if ok else
+              "%s: stable_sort comparator / enumerator order not recognised" % where, key="%s|stable-sort" % m)
+        return ok if ok else None
+    return None
